@@ -30,7 +30,7 @@ package transaction
 //@   requires reg != nil && reg.accounts != nil && t != nil && accrual != nil
 //@   requires inText(accrual.Account.Range) && inText(accrual.Start.Range) && inText(accrual.End.Range) && inText(accrual.Interval.Range)
 //@   requires forall i int :: {t.Postings[i]} 0 <= i && i < len(t.Postings) ==> t.Postings[i] != nil && validAccount(t.Postings[i].Account)
-//@   modifies reg.accounts.index[*], reg.accounts.swaps[*]
+//@   modifies reg.accounts.index[*]
 //@   ghost off []int = 0
 //@   ghost tot []real = 0
 //@   ghost sz []int = 0
@@ -65,11 +65,11 @@ package transaction
 // Create: the model transactions of one syntax transaction; all postings come from the pair builder.
 //@ def okPostings(tr *Transaction) bool := tr != nil && paired(tr.Postings)
 //@ def syntaxOK(t *syntax.Transaction) bool := t != nil && inText(t.Date.Range) && inText(t.Description.Content)
-//@     && (forall i int :: {t.Bookings[i]} 0 <= i && i < len(t.Bookings) ==> inText(t.Bookings[i].Quantity.Range))
+//@     && (forall i int :: {t.Bookings[i]} 0 <= i && i < len(t.Bookings) ==> inText(t.Bookings[i].Quantity.Range) && inText(t.Bookings[i].Credit.Range) && inText(t.Bookings[i].Debit.Range))
 //@     && inText(t.Addons.Accrual.Account.Range) && inText(t.Addons.Accrual.Start.Range) && inText(t.Addons.Accrual.End.Range) && inText(t.Addons.Accrual.Interval.Range)
 //
 //@ func Create
 //@   requires reg != nil && reg.accounts != nil && reg.commodities != nil && syntaxOK(t)
-//@   modifies reg.accounts.index[*], reg.accounts.swaps[*], reg.commodities.index[*]
+//@   modifies reg.accounts.index[*], reg.commodities.index[*]
 //@   ensures result.1 == nil ==> (forall j int :: {result.0[j]} 0 <= j && j < len(result.0) ==> okPostings(result.0[j]))
 //@   loop 1 invariant fresh(targets)
